@@ -188,3 +188,36 @@ def model_features(spec):
         if c.get('registered', True) is False:
             f.add('unregistered-class')
     return sorted(f)
+
+
+def prior_partial_use(ctx, m, text, every=3):
+    """History: the same class objects were used before by another load
+    function that knows only some of them (leaf classes left out).  Whatever
+    happens there must not matter for the function used afterwards.  Applied
+    to every `every`-th document (decided by the text, so replays agree)."""
+    import random
+    import yatiml
+    if (len(text) + text.count('a')) % every:
+        return
+    rng = random.Random(len(text))
+    regd = m.registered()
+    if len(regd) < 2:
+        return
+    leaves = [c for c in regd if not any(
+        c is not d and issubclass(d, c) for d in regd)]
+    if not leaves:
+        return
+    drop = set(rng.sample(leaves, rng.randint(1, len(leaves))))
+    subset = [c for c in regd if c not in drop]
+    try:
+        part = yatiml.load_function(m.py_type(m.spec['doc_type']), *subset)
+    except Exception:
+        ctx.count('prior_partial_function_failed')
+        return
+    ctx.count('prior_partial_loads')
+    events = len(m.events)
+    try:
+        part(text)
+    except Exception:      # noqa: whatever it does is its own business
+        pass
+    del m.events[events:]
